@@ -373,3 +373,61 @@ pub struct CacheStats {
     pub high_watermark: usize,
     pub low_watermark: usize,
 }
+
+#[cfg(feoxdb_verif)]
+pub struct VerifCacheEntry {
+    pub key: Vec<u8>,
+    pub value_len: usize,
+    pub size: usize,
+    pub referenced: bool,
+    /// Address of the generation the entry is tagged with (0 = untagged).
+    pub tag: usize,
+    pub tag_alive: bool,
+}
+
+#[cfg(feoxdb_verif)]
+impl ClockCache {
+    /// Read-only dump of every entry in bucket order starting at bucket 0.
+    pub fn verif_entries(&self) -> Vec<VerifCacheEntry> {
+        let mut out = Vec::new();
+        for bucket in &self.buckets {
+            for entry in bucket.read().iter() {
+                out.push(VerifCacheEntry {
+                    key: entry.key.clone(),
+                    value_len: entry.value.len(),
+                    size: entry.size,
+                    referenced: entry.reference_bit.load(Ordering::Relaxed),
+                    tag: entry.record.as_ref().map_or(0, |w| w.as_ptr() as usize),
+                    tag_alive: entry.record.as_ref().is_some_and(|w| w.upgrade().is_some()),
+                });
+            }
+        }
+        out
+    }
+
+    pub fn verif_bucket_of(key: &[u8]) -> usize {
+        (murmur3_32(key, 0) as usize) % CACHE_BUCKETS
+    }
+
+    pub fn verif_clock_hand(&self) -> usize {
+        self.clock_hand.load(Ordering::Relaxed)
+    }
+
+    pub fn verif_get_for_record(&self, key: &[u8], record: &Arc<Record>) -> Option<Bytes> {
+        self.get_for_record(key, record)
+    }
+
+    pub fn verif_insert_for_record(&self, key: Vec<u8>, value: Bytes, record: &Arc<Record>) {
+        self.insert_for_record(key, value, record)
+    }
+
+    pub fn verif_remove_for_record(&self, key: &[u8], record: &Arc<Record>) {
+        self.remove_for_record(key, record)
+    }
+
+    /// Watermarks in bytes (the public setter only takes whole megabytes).
+    pub fn verif_set_watermarks(&self, high: usize, low: usize) {
+        self.high_watermark.store(high, Ordering::Relaxed);
+        self.low_watermark.store(low, Ordering::Relaxed);
+    }
+}
